@@ -89,6 +89,17 @@ class Ctx:
     def note(self, text):
         self.notes.append(text)
 
+    def guarded(self, rule, fn, *args, **kw):
+        """run one rule function; a crash or an unmodelled construct inside it makes that rule UNDECIDED instead of
+        aborting the property (so that definite violations found by the other rules are still reported)"""
+        try:
+            return fn(*args, **kw)
+        except (KeyboardInterrupt, SystemExit):
+            raise
+        except Exception as e:      # NeedAtom / Budget / AnalysisError / anything the rule did not foresee
+            self.undecided(rule, ("", fn.__name__, None), fn.__name__, "the analysis behind this rule could not be completed: %s: %s" % (type(e).__name__, str(e)[:160]))
+            return None
+
     def adopt(self, other, mapping):
         """take over the instances of another context's rules under this property's rule ids (mapping: their id -> ours);
         used where one property's clause is literally another property's rule (e.g. 'survives the codec' = C01's rules)"""
